@@ -1,0 +1,40 @@
+//go:build verif
+
+// Contracts for package pushback, checked by /verif/govc (see /verif/DESIGN.md).
+// This file contains only comments; it is compiled only with -tags verif and
+// has no effect on the package.
+
+package pushback
+
+// The byte channel is specified through model fields over the ghost history of
+// its underlying channel: I is everything the channel will ever deliver, N its
+// length, cur the abstract read cursor (bytes handed out minus bytes pushed
+// back) and pbn the number of pushed-back bytes.
+
+//@ type ByteChannel
+//@ owned pushBackBuffer
+//@ model I(bc) = feed(bc.byteChan)
+//@ model N(bc) = feedlen(bc.byteChan)
+//@ model pbn(bc) = len(bc.pushBackBuffer)
+//@ model cur(bc) = recvd(bc.byteChan) - len(bc.pushBackBuffer)
+//@ invariant[C02,C07] self.cur >= 0 && recvd(self.byteChan) <= self.N
+//@ invariant[C02] seqeq(self.pushBackBuffer, self.I, self.cur, self.cur + self.pbn)
+
+//@ func New
+//@ ensures result != nil && fresh(result) && result.byteChan == ch
+//@ ensures[C02,C07] result.pbn == 0
+
+//@ func (*ByteChannel).GetNextByte
+//@ requires[C07] bc != nil && bc.byteChan != nil
+//@ modifies bc.pushBackBuffer, recv(bc.byteChan)
+//@ ensures[C02] old(bc.cur) < bc.N ==> r1 == nil && r0 == bc.I[old(bc.cur)]
+//@ ensures[C02,C07] old(bc.cur) < bc.N ==> r1 == nil && bc.cur == old(bc.cur) + 1
+//@ ensures[C02,C07] old(bc.cur) >= bc.N ==> r1 != nil && bc.cur == old(bc.cur)
+//@ ensures[C02] r1 != nil ==> errmsg(r1) == "done"
+//@ ensures[C02,C07] bc.pbn == ite(old(bc.pbn) > 0, old(bc.pbn) - 1, 0)
+
+//@ func (*ByteChannel).PushBack
+//@ requires[C07] bc != nil
+//@ requires[C02] bc.pbn == 0 && bc.cur > 0 && b == bc.I[bc.cur - 1]
+//@ modifies bc.pushBackBuffer, elems(bc.pushBackBuffer)
+//@ ensures[C02,C07] bc.cur == old(bc.cur) - 1 && bc.pbn == old(bc.pbn) + 1
